@@ -44,8 +44,14 @@ def generate(ctx, budget):
             cases.append(relay.gen_pairing(ctx.rng, ctx.rng.choice(relay.PAIRING_SHAPES), False))
         elif r < 0.97:
             cases.append(relay.gen_burst(ctx.rng, False))
-        else:
+        elif r < 0.985:
             cases.append(relay.gen_stall(ctx.rng, False))
+        else:
+            cases.append(relay.gen_stall_close(ctx.rng))
+    # a bridge side leaves while the relay holds a backlog for the other, stalled, side: every continuation, several times
+    for rep in range(4 if not thorough else 40):
+        for v in range(6):
+            cases.append(relay.gen_stall_close(ctx.rng, v))
     cases += relay.gen_orders(("eof", "hup", "rst", "shw") if thorough else ("eof", "hup"))[:: (1 if thorough else 4)]
     return cases
 
@@ -83,7 +89,8 @@ def spec() -> Spec:
         rule="malformed byte streams (partial lines, CRLF, NUL/binary, wrong-length and non-hex ids, wrong argument counts, lines of "
              "4095..65536 bytes and 1 MiB, identity fragments) and pairing scripts from 1-5 clients against the real RelayServer under "
              "ASan+UBSan, every client leaving by FIN/half-close/RST/HUP in random order; all 4!·2^4 (thorough: 4!·4^4) disconnect "
-             "orders of an established bridge plus a claimed pair; after every op sessions_, registered_ and /proc/self/fd are compared "
+             "orders of an established bridge plus a claimed pair; a bridge side leaving while the relay holds a backlog for the other, "
+             "stalled side (4 KiB socket buffers), which then resumes / never resumes / leaves too, with every disconnect kind; after every op sessions_, registered_ and /proc/self/fd are compared "
              "with the clients still connected; non-trivial = all clients left, several sessions coexisted and the server closed or "
              "refused something",
         trusted_base=["ASan/UBSan as the observer of memory errors in the real binary (an observation, not a theorem)",
